@@ -4,6 +4,7 @@ import re
 import hir as H
 import mir as M
 import rulelib as L
+import charpred as CP
 import spec_tables as S
 import c01
 import c03
@@ -242,26 +243,26 @@ def run(F, R, tier):
         r3.require(inner_called, (vfn, "set-check"), "validate() does not reject payloads failing the character-set predicate")
         ih = F.hir(CS + "::__validate")
         sets = {}
+        whys = {}
         if r3.anchor(ih, "CharSet::__validate"):
             m = H.find_first(ih, lambda n: n.get("k") == "match" and n.get("src") == "normal")
             if r3.require(m is not None, (CS + "::__validate", "table"), "character-set table not found"):
                 for arm in m["arms"]:
                     name = H.pat_str(arm["pat"])
-                    inner_m = [x for x in H.walk(arm["body"]) if x.get("k") == "match"]
-                    alls = [x for x in H.walk(arm["body"]) if x.get("k") == "mcall" and x["name"] == "all"]
-                    cps = None
-                    if inner_m and alls:
-                        mm = inner_m[0]
-                        pos = [a for a in mm["arms"] if H.literals(a["body"]) == [True]]
-                        neg_ = [a for a in mm["arms"] if H.literals(a["body"]) == [False]]
-                        if len(pos) == 1 and len(neg_) == 1 and H.pat_str(neg_[0]["pat"]) == "_":
-                            cps = char_ranges(pos[0]["pat"])
+                    # `data.chars().all(|ch| <predicate>)`: fold the predicate over the finite code-point domain
+                    body = H.strip(arm["body"])
+                    cps, why = None, "the arm is not `data.chars().all(|ch| ..)`"
+                    if body.get("k") == "mcall" and body["name"] == "all" and H.strip(body["recv"]).get("name") == "chars":
+                        cl = H.strip(body["args"][0])
+                        if cl.get("k") == "closure":
+                            cps, why = CP.closure_accepted_set(F, cl)
                     sets[name] = cps
+                    whys[name] = why
                     r3.site("CharSet::%s accepts %s code points" % (name, len(cps) if cps is not None else "?"), arm["body"].get("sp"))
         want = {"Default": S.CHARSET_DEFAULT, "UrlSafe": S.CHARSET_URLSAFE}
         for name, w in want.items():
             got = sets.get(name)
-            if not r3.require(got is not None, (CS, name, "not-extractable"), "the %s character set is no longer a `matches!` over literal ranges applied with `all`; cannot compare it with the specification" % name):
+            if not r3.require(got is not None, (CS, name, "not-extractable"), "the %s character-set predicate cannot be folded (%s); cannot compare it with the specification" % (name, whys.get(name))):
                 continue
             extra = sorted(got - w)
             missing = sorted(w - got)
